@@ -304,6 +304,8 @@ Definition range_frame (start stop step : Z) : res pre :=
        so an empty range is an empty frame with the column id *)
     Ok (struct_of [PNew id_name] (map (fun i => ([id_name], [VInt i])) (py_range start stop step)) true true).
 
+Definition columns (f : frame) : list name := map fname (fields f).
+
 (* ---------- select ---------- *)
 Inductive scol := SStar | SExpr (e : expr).
 
@@ -645,6 +647,25 @@ Fixpoint distinct_rows (seen : list row) (l : list row) : list row :=
 Definition distinct (f : frame) : res pre :=
   Ok (same_schema f (distinct_rows [] (rows f)) false (fval f)).
 
+(* dropDuplicates(subset): select(struct(subset or "*") as key, struct("*") as value), one value per key.
+   The value is create_row(schema names, [row[c] for c in row.__fields__]) *)
+Fixpoint dedup_keyed (seen : list (list val)) (l : list (list val * row)) : list row :=
+  match l with
+  | [] => []
+  | (k, r) :: l' => if existsb (vals_eqb k) seen then dedup_keyed seen l'
+                    else r :: dedup_keyed (k :: seen) l'
+  end.
+Definition drop_duplicates (f : frame) (cols : list name) : res pre :=
+  do kvs <- mapM (fun r => do k <- match cols with
+                                   | [] => mapM (row_get r) (fst r)
+                                   | _ => mapM (fun c => eval (fields f) r (ECol c)) cols end;
+                           do vs <- mapM (row_get r) (fst r);
+                           Ok (k, (columns f, vs))) (rows f);
+  (* which row represents a key depends on the row order: with a proper subset the content is only
+     determined when the order is *)
+  Ok (same_schema f (dedup_keyed [] kvs) false
+                  (fval f && (ford f || match cols with [] => true | _ => false end))).
+
 (* the sampler's decision is taken per element; any function of the element models a scripted
    sampler, the theorems quantify over all of them *)
 Definition sample_with (mult : row -> nat) (f : frame) : res pre :=
@@ -663,7 +684,6 @@ Definition collect (f : frame) : list row := rows f.
 (* RDD.count: sum over the partitions of the number of elements *)
 Definition rdd_count (parts : list (list row)) : Z := fold_left (fun a p => a + Z.of_nat (length p)) parts 0.
 Definition count (f : frame) : Z := rdd_count [rows f].
-Definition columns (f : frame) : list name := map fname (fields f).
 
 (* ---------- programs: every step builds a new DataFrame from earlier ones ---------- *)
 Inductive instr :=
@@ -685,7 +705,8 @@ Inductive instr :=
 | ISample (src : nat) (wr : bool) (a m : Z)
 | IRepartition (src : nat) (cols : list expr)
 | ICreateRows (is_row by_struct : bool) (own names : list name) (data : list (list val))
-| ICreateStrict (names : list name) (strict : list bool) (data : list (list val)).
+| ICreateStrict (names : list name) (strict : list bool) (data : list (list val))
+| IDropDup (src : nat) (cols : list name).
 
 Definition get (env : list frame) (i : nat) : res frame :=
   match nth_error env i with Some f => Ok f | None => Err "BadCase" end.
@@ -714,6 +735,7 @@ Definition step (env : list frame) (i : instr) : res pre :=
   | IRepartition s cols => do f <- get env s; repartition f cols
   | ICreateRows r m own names data => create_rows r m own names data
   | ICreateStrict names strict data => create_strict names strict data
+  | IDropDup s cols => do f <- get env s; do _ <- need_val f; drop_duplicates f cols
   end.
 
 (* runs the program until the first step that raises; returns the frames built so far *)
